@@ -399,6 +399,9 @@ def evaluate(case: Dict[str, Any]) -> Outcome:
             out.classes.add("window_hides_something")
         label = cli.method_label(case.get("method"), case.get("schedule"), case["country"])
         path = os.path.join(outdir, f"{case.get('prefix') or ''}{label}_rp2_full_report.ods")
+        if not os.path.exists(path):
+            out.fail("full_report_not_written", f"rp2_{case['country']} exited 0 but {os.path.basename(path)} is not in the output directory ({result.files})")
+            return out
         report = report_model.FullReport(path, lang)
         ctx = Ctx(out, f"rp2_{case['country']} -g {lang} window {window}")
         assets = sorted(reference["assets"])
